@@ -4,7 +4,7 @@ import pickle
 
 from hypothesis import strategies as st
 
-from anytree import AnyNode, LightNodeMixin, Node, SymlinkNode, SymlinkNodeMixin
+from anytree import AnyNode, LightNodeMixin, Node, NodeMixin, SymlinkNode, SymlinkNodeMixin
 
 from .. import forest, mut, nodes, refs, shapes, strategies, values
 from ..core import Violation
@@ -31,7 +31,23 @@ NM_MIX = ["Node", "AnyNode", "PlainNM", "SymlinkNode", "EqNode", "FalsyNode", "L
 LM_MIX = ["SlotLM", "DictLM", "StrSlotLM", "_UnderLM"]
 
 
+HIERARCHY = [None]  # the three classes created for the running case (see nodes.fresh_slot_hierarchy)
+LOCAL_CLASS = [None]
+
+
 def make(clsname, idx, attrs, target):
+    if clsname in ("H0", "H1", "H2"):
+        level = int(clsname[1])
+        node = HIERARCHY[0][level]("h%d" % idx)
+        if level >= 1:
+            node.extra = ["extra", idx, sorted(attrs.items())]
+        if level >= 2:
+            node.more = {"more": idx}
+        if hasattr(node, "__dict__"):
+            node.__dict__.update(attrs)
+        return node
+    if clsname == "LocalNM":
+        return LOCAL_CLASS[0]("l%d" % idx, **attrs)
     if clsname == "Node":
         return Node("n%d" % idx, **attrs)
     if clsname == "AnyNode":
@@ -95,6 +111,8 @@ def state_of(node):
         return [("payload", getattr(node, "payload", "<payload missing>"))]
     if isinstance(node, nodes._UnderLM):
         return [("private payload", getattr(node, "_UnderLM__payload", "<payload missing>"))]
+    if hasattr(type(node), "_vf_hierarchy"):
+        return nodes.own_slots(node) + sorted((k, v) for k, v in getattr(node, "__dict__", {}).items() if not (k in BOOK or k.startswith("_NodeMixin__")))
     slots = [("slot:" + k, getattr(node, k, "<unset>")) for k in nodes.Record.__slots__] if isinstance(node, nodes.Record) else []
     return slots + sorted((k, v) for k, v in vars(node).items() if not (k in BOOK or k.startswith("_NodeMixin__") or k.startswith("_LightNodeMixin__")))
 
@@ -161,8 +179,28 @@ def full_state(all_nodes):
 
 
 def check_case(case, acc):
+    HIERARCHY[0] = nodes.fresh_slot_hierarchy({"LM": LightNodeMixin, "NM": NodeMixin}[case["hierarchy"]]) if case.get("hierarchy") else None
+    LOCAL_CLASS[0] = nodes.local_node_class()
+    try:
+        return _check_case(case, acc)
+    finally:
+        nodes.release_hierarchy(HIERARCHY[0])
+        HIERARCHY[0] = None
+
+
+def _check_case(case, acc):
     other = build_tree(case["other"], []) if case.get("other") else []
     tree = build_tree(case["tree"], other)
+    if case.get("unpicklable"):
+        # callbacks and application objects that copy handles and pickle does not (deepcopy only)
+        for idx, node in enumerate(tree):
+            if hasattr(node, "__dict__") and not isinstance(node, SymlinkNodeMixin) and idx % case["unpicklable"] == 0:
+                node.callback, node.local = nodes.local_value(idx)
+    if case.get("warm") is not None:
+        # the first node of the hierarchy whose state is ever taken is a lone instance of one of the three classes
+        lone = HIERARCHY[0][case["warm"]]("lone")
+        copy.deepcopy(lone)
+        pickle.dumps(lone, 2)
     for op in case.get("premut", []):
         # the tree has a past: nodes were moved around before it is copied (some inner nodes lost all their children again)
         if op[0] == "move":
@@ -193,7 +231,7 @@ def check_case(case, acc):
     victim = mapping[id(tree[-1])]
     victim.parent = None
     first = mapping[id(tree[0])]
-    if not isinstance(first, (SymlinkNodeMixin, nodes.SlotLM, nodes.StrSlotLM, nodes._UnderLM)):
+    if not isinstance(first, (SymlinkNodeMixin, nodes.SlotLM, nodes.StrSlotLM, nodes._UnderLM)) and hasattr(first, "__dict__"):
         first.extra_attribute = "changed"
     else:
         del first.children
@@ -217,7 +255,7 @@ def check_case(case, acc):
     tree[-1].parent = None
     if len(tree) > 2:
         tree[1].children = []
-    if not isinstance(tree[0], (SymlinkNodeMixin, nodes.SlotLM, nodes.StrSlotLM, nodes._UnderLM)):
+    if not isinstance(tree[0], (SymlinkNodeMixin, nodes.SlotLM, nodes.StrSlotLM, nodes._UnderLM)) and hasattr(tree[0], "__dict__"):
         tree[0].extra_attribute = "changed too"
     if full_state(copies) != snap_copy:
         raise Violation("independence", "%s: mutating the original changed the copy" % ctx)
@@ -246,6 +284,8 @@ def check_case(case, acc):
     acc.tag("cross_tree_target", has_link and bool(other) and any(t and t[0] == "other" for t in case["tree"].get("targets", [])))
     acc.tag("entry_not_root", case["entry"] != 0)
     acc.tag("tree_rearranged_before_copying", bool(case.get("premut")))
+    acc.tag("class_hierarchy_adding_slots_per_level", bool(case.get("hierarchy")))
+    acc.tag("attribute_values_only_copy_can_handle", bool(case.get("unpicklable")))
 
 
 NM_METHODS = ["p0", "p1", "p2", "p3", "p4", "p5", "deepcopy"]
@@ -292,6 +332,35 @@ def _enum_cases(max_nodes, index, count):
                     yield case
 
 
+def _hierarchy_cases(max_nodes):
+    """Fresh three-level slot hierarchies (per case): every shape, level pattern, entry, method, and which class is used first."""
+    k = 0
+    for shape in shapes.trees_upto(max_nodes):
+        size = shapes.shape_size(shape)
+        if size < 2:
+            continue
+        for mixin, methods in (("LM", LM_METHODS), ("NM", NM_METHODS[2:])):
+            for pattern in ([0, 1, 2], [0, 2, 1], [2, 0, 1], [1, 1, 0], [0, 0, 2]):
+                cls = ["H%d" % pattern[i % 3] for i in range(size)]
+                spec = {"shape": forest.to_list(shape), "classes": cls, "targets": [None] * size, "attrs": [SAMPLE_ATTRS[i % 3] if mixin == "NM" else [] for i in range(size)]}
+                for entry in range(size):
+                    for warm in (None, 0, 2):
+                        k += 1
+                        yield {"tree": spec, "entry": entry, "method": methods[k % len(methods)], "hierarchy": mixin, "warm": warm}
+
+
+def _unpicklable_cases(max_nodes):
+    k = 0
+    for shape in shapes.trees_upto(max_nodes):
+        size = shapes.shape_size(shape)
+        for classes in (["Node"], ["AnyNode", "LocalNM"], ["LocalNM", "Node", "SymlinkNode"], ["PlainNM", "SlotDictNM", "LocalNM"]):
+            cls = [classes[i % len(classes)] for i in range(size)]
+            spec = {"shape": forest.to_list(shape), "classes": cls, "targets": [["same", i // 2] for i in range(size)], "attrs": [SAMPLE_ATTRS[i % 3] for i in range(size)]}
+            for entry in range(size):
+                k += 1
+                yield {"tree": spec, "entry": entry, "method": "deepcopy", "unpicklable": 1 + k % 3}
+
+
 ATTR_KEY = st.one_of(st.text(alphabet="abcdxyz_", min_size=1, max_size=3), st.sampled_from(["_parent", "_children", "_NodeMixin", "parents", "_c"])).filter(lambda k: k not in ("name", "tag"))
 
 
@@ -332,10 +401,15 @@ def plan(tier, seed):
     examples = 150 if tier == "quick" else 1200
     tasks = [{"engine": "enum", "max_nodes": max_nodes, "index": i, "count": nshards} for i in range(nshards)]
     tasks += [{"engine": "hyp", "examples": examples, "seed": seed * 1000 + i} for i in range(nshards)]
+    tasks += [{"engine": "hierarchy", "max_nodes": 4 if tier == "quick" else 5}, {"engine": "unpicklable", "max_nodes": 5 if tier == "quick" else 6}]
     return tasks
 
 
 def run_task(task, acc):
+    if task["engine"] == "hierarchy":
+        return acc.run_enum(check_case, _hierarchy_cases(task["max_nodes"]))
+    if task["engine"] == "unpicklable":
+        return acc.run_enum(check_case, _unpicklable_cases(task["max_nodes"]))
     if task["engine"] == "enum":
         acc.run_enum(check_case, _enum_cases(task["max_nodes"], task["index"], task["count"]))
     else:
